@@ -160,6 +160,23 @@ def typed_calls(rng: random.Random, full: bool) -> Iterator[Tuple[str, str, List
         yield 'view-constructor-fails', 'broken.vm', p
     yield 'unbound', 'ok', {'content-type': 1, 'a': 1}
     yield 'unbound', 'noargs', {'': 0}
+    for p in ([1], {'a': 'x'}):
+        yield 'non-json-defaults', 'odd_defaults', p
+    for p in ([], {'zz': 1}, [1, 2, 3, 4, 5, 6], {'a': 1, 'nope': 2}):
+        yield 'unbound', 'odd_defaults', p
+    for p in ([1], {'a': 1, 'b': 2}):
+        yield 'type-checker-only-annotations', 'tc_only', p
+    yield 'unbound', 'tc_only', {'c': 1}
+    for p in ([' x '], {'s': 'y'}):
+        yield 'custom-validator-code', 'pd_strip', p
+    for p in ([1], {'a': 1, 'b': 2}, [1, 2]):
+        yield 'view-class-or-static-method', 'view.cm', p
+        yield 'view-class-or-static-method', 'view.sm', p
+    for p in ([], {'cls': 1}, {'b': 2}, [1, 2, 3]):
+        yield 'unbound', 'view.cm', p
+        yield 'unbound', 'view.sm', p
+    for p in ([], [3], {'by': 2}):
+        yield 'stateful-view-without-context', 'cnt.bump', p
     for p in ([1], {'a': 2}):
         yield 'underscore-name', '_under', p
         yield 'underscore-name', 'ns._dotted', p
